@@ -60,6 +60,15 @@ def gen(rng, tier):
             add(line, (cmd, "sel:" + sel.split(":")[0], "via:flag"), {"via": {"mnemonic": "flag", "password": "flag", "index": "flag", "path": "flag"}, "pair": g},
                 nt=(sel != "default" or pw != "-"))
             add(line, (cmd, "sel:" + sel.split(":")[0], "via:env"), {"via": {"mnemonic": "env", "password": "env", "index": "env", "path": "env"}, "pair": g}, nt=False)
+    # passphrases with characters that layers between argv and the library like to rewrite, given in the three ways a value
+    # can be given (--password=V, --password V, PASSWORD=V): all three must name the same wallet (pair check) and the right one
+    for pw in ["under_score", "a_b-c=d", "__", "_", "snake_case_pass_phrase", "semi;colon", "comma,sep", "quo'te\"d", "back\\slash", "$HOME", "%41%5f", "a:b", "@file", "#hash", "~", "*", "?", "!bang",
+               "(paren)", "[br]", "{a,b}", "<a>", "a&b", "a|b", "`x`", "a=b=c", "=", "a b_c", "tab\there", "x--y", "x_-_y", "CamelCase_snake"]:
+        mn, _, sel = rand_acct(rng)
+        g = rng.getrandbits(48)
+        cmd = rng.choice(["cli.address", "cli.export", "cli.public_key"])
+        for st in ("flag", "sep", "env"):
+            add("%s %s %s %s" % (cmd, mn, hx(pw), sel), (cmd, "special-passphrase", "via:" + st), {"via": {"mnemonic": rng.choice(["flag", "env"]), "password": st, "index": rng.choice(["flag", "env"]), "path": rng.choice(["flag", "env"])}, "pair": g}, nt=(st == "flag"))
     # one mnemonic, many indices: output formatting must hold for every key (leading zero nibbles/bytes in
     # the address, the secret, the coordinates occur for roughly 1 key in 16 / 256)
     mn_sweep = hx(" ".join(bip39.rand_phrase(rng, 12)))
